@@ -187,6 +187,11 @@ def oracle(asm, code: bytes, symbol_map, const_map, push0: bool, opbyte, evm=Non
                     probs.append(f"item {idx}: data bytes not verbatim at offset {pc}")
                 pc += len(it.data)
             else:
+                tgt = it.data.label
+                is_code = any(isinstance(x, I.Label) and x.label == tgt for x in asm)
+                is_head = any(isinstance(x, I.DataHeader) and x.label.label == tgt for x in asm)
+                if not (is_code or is_head or tgt == "code_end"):
+                    probs.append(f"item {idx}: data label {tgt} is neither a code label, a data section nor code_end")
                 want = sym.get(it.data.label)
                 got = int.from_bytes(code[pc:pc + 2], "big")
                 if len(code) < pc + 2 or want != got:
